@@ -52,6 +52,9 @@ const (
 	TypeBit
 )
 
+// TypeJSON is MYSQL_TYPE_JSON (sent as a length-encoded string in the binary protocol)
+const TypeJSON Type = 0xf5
+
 // MySQL types
 const (
 	TypeNewDecimal Type = iota + 0xf6
